@@ -166,6 +166,16 @@ func runRaceCase(f []string) string {
 	composite := strings.HasSuffix(f[4], "c")
 	ninst, _ := strconv.Atoi(f[2])
 	nshots, _ := strconv.Atoi(f[3])
+	if pool == "ammo" {
+		stall := time.Duration(0)
+		if variant == "1" {
+			stall = 2300 * time.Millisecond
+		}
+		if s, ok := runAmmoTrace(ninst, 300, 2800*time.Millisecond, stall, variant == "1"); !ok {
+			return s
+		}
+		return "done"
+	}
 	mfs := afero.NewMemMapFs()
 	coreimport.Import(mfs)
 	phttpimport.Import(mfs)
